@@ -32,7 +32,7 @@ ASSUMPTIONS = ["inputs valid (node indices in range, n_nodes>=1, non-negative we
                "dyadic weights, so float sums are exact in both languages"]
 TIERS = {
     "quick": {"runs": 320000, "block": 4000, "budget_s": 90},
-    "thorough": {"runs": 3000000, "block": 4000, "budget_s": 900},
+    "thorough": {"runs": 60000000, "block": 8000, "budget_s": 900},
 }
 FUNCS = ["floyd_warshall", "bellman_ford", "dijkstra_edges", "bfs_edges", "dfs_edges", "kruskal", "pagerank_edges",
          "strongly_connected_components_edges", "topological_sort_edges"]
